@@ -27,6 +27,7 @@ PROPS["C10"] = {
         "pkg": "curve", "configs": ALL4,
         "tests": {
             "TestC10Decode": T(20000, 1000000),
+            "TestC10Ownership": T(1500, 40000),
             "FuzzC10Decode": FUZZ(90, configs=["default"]), "FuzzC10AnyLen": FUZZ(60, configs=["default"]),
             "TestC10DecodeList": LIST(),
             "TestC10Lengths": LIST(),
